@@ -37,9 +37,19 @@ def check_split_combine(facts, rep):
                 conds = {}
                 for b_ in p.branches():
                     s = sk(b_.term)
+                    truth = (b_.value != 0)
                     m = re.match(r'contains\(&Range::Range\{start: 0, end: arg2\.([01])\}', s)
                     if m:
-                        conds[int(m.group(1))] = (b_.value == 'else')
+                        conds[int(m.group(1))] = truth
+                        continue
+                    # i < k / k > i / i >= k / k <= i written out
+                    m = re.match(r'(Lt|Ge)\((.*), arg2\.([01])\)$', s) or None
+                    if m and 'arg2' not in m.group(2):
+                        conds[int(m.group(3))] = truth if m.group(1) == 'Lt' else (not truth)
+                        continue
+                    m = re.match(r'(Gt|Le)\(arg2\.([01]), (.*)\)$', s)
+                    if m and 'arg2' not in m.group(3):
+                        conds[int(m.group(2))] = truth if m.group(1) == 'Gt' else (not truth)
 
                 def off(t, axis):
                     t = strip(t)
@@ -59,7 +69,11 @@ def check_split_combine(facts, rep):
             want = (pos < 2, pos % 2 == 0, 'none' if pos < 2 else 'sub', 'none' if pos % 2 == 0 else 'sub')
             if (rin, cin, ro, co) != want:
                 problems.append('block %d takes rows %s / cols %s in range with offsets (%s, %s); expected %s' % (pos, rin, cin, ro, co, want))
-    if problems:
+    unknown = (not order or len(order) != 4 or set(order) != set(table) or
+               any(v[0] is None or v[1] is None or '?' in v[2:] for v in table.values()))
+    if problems and unknown:
+        rep.indet('E8.F8: SpMat::divide4 outside the recognised fragment: ' + '; '.join(problems)[:300])
+    elif problems:
         rep.violation('E8.F8-split-recombine', inst, 'SpMat::divide4: ' + '; '.join(problems), where=dv.where())
     else:
         rep.ok('E8.F8-split-recombine', inst, 'a:(i,j) b:(i,j-l) c:(i-k,j) d:(i-k,j-l)')
